@@ -170,14 +170,7 @@ def main():
     one('struct_layout',
         r'static struct \{\s*\n\s*union \{\s*\n\s*struct \{\s*\n\s*uint16_t headroom\[%d\];\s*\n\s*uint16_t slots\[%d\];\s*\n\s*uint16_t vtbls\[%d\];\s*\n'
         r'\s*\} encoded;\s*\n\s*std::uintptr_t vtbls\[%d\];\s*\n\s*\};\s*\n\s*std::uintptr_t dtbls\[%d\];\s*\n\s*\} yomm2_dispatch_data = \{ \{ \{ \{\}, \{', g, GEN)
-    one('headroom_expr',
-        r'const auto headroom = decode_lead > slots_and_strides_size\s*\n\s*\? decode_lead - slots_and_strides_size\s*\n\s*: 1;', g, GEN)
-    one('lead_expr',
-        r'const auto decoded_cells =\s*\n\s*decode_vtbl_size \* decode_size / encode_size;\s*\n\s*if \(decoded_cells > encode_vtbl_size\) \{\s*\n'
-        r'\s*decode_lead =\s*\n\s*\(std::max\)\(decode_lead, decoded_cells - encode_vtbl_size\);', g, GEN)
-    one('sizes_printed',
-        r'int\(headroom\),\s*\n\s*int\(slots_and_strides_size\), int\(encode_vtbl_size\),\s*\n\s*int\(\(std::max\)\(decode_vtbl_size, std::size_t\(1\)\)\),\s*\n'
-        r'\s*int\(\(std::max\)\(dispatch_tables_size, std::size_t\(1\)\)\)\);', g, GEN)
+    # the size computation and the five printed bounds are translated (translators/encsizes.py -> Gen/GenEnc.v), not anchored here
     one('first_slot_cell', r'<< uint16_t\(cls\.first_slot \| \(cls\.vtbl\.empty\(\) \? stop_bit : 0\)\)', g, GEN)
     one('entry_stop', r'auto stop = &entry == &cls\.vtbl\.back\(\) \? stop_bit : 0;', g, GEN)
     one('entry_index_cell', r'os << uint16_t\(entry\.group_index \| index_bit \| stop\);', g, GEN)
